@@ -58,6 +58,13 @@ def cases(chk):
     ]
     for c in corpus:
         yield "script", c
+    # a sender whose FIRST message goes to a group (one key fetch for several members), then one-to-one messages to each of those members
+    for i in range(chk.scale(6, 120)):
+        na = 3 + i % 2
+        script = [["send", 1, "g", 0, r.randrange(70)]] + ([["wait"]] if i % 3 == 0 else []) + [["send", 1, "u", b, r.randrange(70)] for b in range(2, na + 1)]
+        if i % 2:
+            script.append(["send", 2, "u", 1, r.randrange(70)])
+        yield "script", {"accts": na, "groups": [list(range(1, na + 1))], "script": script, "faults": [], "restarts": [], "seed": r.randrange(1 << 30)}
     # a burst: two or three messages in a row from one sender to one recipient (or group), EACH damaged once — several retry requests are being
     # served at the same time (the key fetch of one is still unanswered when the next retry receipt arrives)
     for i in range(chk.scale(14, 300)):
